@@ -154,8 +154,8 @@ fn cmd_check(args: &[String]) -> i32 {
         "C05" => ("C05", vec![Profile::ControlFlow], 9000, 150_000),
         "C11" => ("C11", vec![Profile::ControlFlow], 4000, 60_000),
         "C15" => ("C15", vec![Profile::ControlFlow, Profile::ControlFlow, Profile::Print, Profile::Files], 8000, 120_000),
-        "C16" => ("C16", vec![Profile::Print], 9000, 150_000),
-        "C18" => ("C18", vec![Profile::Files], 9000, 150_000),
+        "C16" => ("C16", vec![Profile::Print], 30000, 400_000),
+        "C18" => ("C18", vec![Profile::Files], 12000, 200_000),
         "C08" => ("C08", vec![Profile::ControlFlow, Profile::Print, Profile::Files], 9000, 150_000),
         _ => {
             eprintln!("unknown check {}", id);
